@@ -270,6 +270,25 @@ func c12Skeletons(r *Run) {
 		add(b, "base")
 	}
 	r.Dist["sk:bases"] = len(bases)
+	// deep nests (the enumeration above stops at depth 3-4): properly nested to depth d, and the same with one
+	// closing tag dropped / one added
+	for _, d := range []int{5, 8, 15, 16, 17, 18, 24, 31, 32, 33, 48, 64, 65, 100} {
+		var op, cl []byte
+		for k := 0; k < d; k++ {
+			c := "ifi"[k%3]
+			if k%5 == 4 {
+				c = 's'
+			}
+			op = append(op, c)
+			cl = append([]byte{c - 'a' + 'A'}, cl...)
+		}
+		deep := string(op) + "l" + string(cl)
+		add(deep, "deep")
+		add(deep[:len(deep)-1], "deep-delete")
+		add(deep+"I", "deep-insert")
+		add(string(op)+"l"+string(cl[1:]), "deep-delete-inner")
+		r.Dist["sk:deep"]++
+	}
 	const alphabet = "ifsIFSlbu"
 	for _, b := range bases {
 		for i := 0; i < len(b); i++ {
